@@ -287,7 +287,8 @@ pub fn fmt_bin(
 /// Fill from the hexadecimal representation
 pub fn fill_hex(num_vars: usize, table: &mut [u64], s: &str) -> Result<(), ()> {
     debug_assert_eq!(table.len(), table_size(num_vars));
-    if !s.is_ascii() {
+    // Only hexadecimal digits: from_str_radix would also accept a leading sign
+    if !s.bytes().all(|b| b.is_ascii_hexdigit()) {
         return Err(());
     }
     let width = hex_str_size(num_vars);
@@ -300,6 +301,10 @@ pub fn fill_hex(num_vars: usize, table: &mut [u64], s: &str) -> Result<(), ()> {
         let v = u64::from_str_radix(ss, 16);
         match v {
             Ok(v) => {
+                if v & !num_vars_mask(num_vars) != 0 {
+                    // Digit too large for a Lut with less than 2 variables
+                    return Err(());
+                }
                 *t = v;
             }
             Err(_) => {
